@@ -102,7 +102,7 @@ kf("K8a-C03", "E forced-break-under-suppression", "C03", r"^C03\|not-idempotent\
 kf("K8a2-C03", "E forced-break-under-suppression (text line built by a production)", "C03", r"^C03\|not-idempotent\|spine=(doc/(hash_text|hash_tight|text_hash)(@\d)?|hash/[^/|]+)/[^|]*(block2_semi|block2_ml|import\w*|table\w*|grid\w*)\|size=", "#if a { import \"m.typ\": a } foo", E + " - here the text line comes from a production (code followed by text on the same line; in markup a binary operator after an embedded expression is text)", "not-idempotent")
 kf("K8k-C03", "E forced-break-under-suppression (with a deviation elsewhere)", "C03", r"^C03\|not-idempotent\|dev=.*\|at=(mixed|math_i|math_b|math_hash|hash|item|heading|strong|let|arg|doc)/.*(block2_semi|block2_ml)", "#if a { {b; c} } elseif d { e }", E, "not-idempotent")
 kf("K6-C03", "D5 list-after-bracket-unbreakable", "C03", r"^C03\|not-idempotent\|(spine|dev=.*\|at)=(mixed|strong|heading|item)/content\w*@0/(list|enum|term)\w*", "foo #[- foo\n- bar] bar", D5 + " - with tab width 8 the first pass nests the second item and the second pass nests it further", "not-idempotent")
-kf("K8l-C03", "directive at the end of a list item line", "C03", r"^C03\|not-idempotent\|(.*&)?dev=markup:ListItem>Markup\[Text\^ListMarker\]:(off_lc|off_reason)", "#g[\n  - foo// @typstyle off\n- bar\n      - baz\n]", "a line-comment directive at the end of a list item line protects the following list item; its verbatim text keeps the source indentation, which the next pass reads as a different nesting", "not-idempotent")
+kf("K8l-C03", "directive at the end of a list item line", "C03", r"^C03\|not-idempotent\|(.*&)?dev=markup:(ListItem>Markup\[Text\^ListMarker\]|Markup>(List|Enum)Item\[(List|Enum)Marker\^(List|Enum)Marker\]):(off_lc|off_reason)", "#g[\n  -// @typstyle off\n- foo\n      bar\n]", "a line-comment directive at the end of a list item line protects the following list item; its verbatim text keeps the source indentation, which the next pass reads as a different nesting", "not-idempotent")
 kf("K8b-C03", "E forced-break-under-suppression", "C03", r"^C03\|not-idempotent\|(.*&)?dev=code:\w+>(CodeBlock|Code)\[[^\]]*\]:(bc|bc_sp|bc_ml|bc_star|bc_bc|nl_bc_nl|lc|lc_sp|lc_lc|nl_lc|off_bc|off_lc|off_tight|off_reason|off_mid|bc_ws_line|bc_blank|bc_tab|bc_uni)", "$#g({a/*c1*/})$", E, "not-idempotent")
 kf("K8c-C03", "E / trivia inside a field access chain", "C03", r"^C03\|not-idempotent\|(.*&)?dev=\w+:\w+>FieldAccess\[.*\|at=.*(block2_semi|block2_ml|import\w*|table\w*|grid\w*)", "#a.f({b; c}).\ng(d)", "a line break or comment inside a method chain whose call arguments hold a node that always breaks: " + E, "not-idempotent")
 kf("K8d-C03", "H asymmetric content block edge", "C03", r"^C03\|not-idempotent\|(.*&)?dev=markup:\w+>ContentBlock\[(LeftBracket\^\w+|\w+\^RightBracket)\]", "#[ $ x $]", "a content block with a blank at only one of its inner edges whose content breaks at a narrow width: the first pass keeps the blank as a space because the source is on one line, the second pass sees a multi-line source and turns it into a line break", "not-idempotent")
@@ -114,7 +114,7 @@ kf("K8f-C03", "adjacent comments after a chain operator", "C03", r"^C03\|not-ide
 kf("K8h-C03", "E / comment between call parts", "C03", r"^C03\|not-idempotent\|(.*&)?dev=markup:\w+>(FuncCall\[Ident\^LeftParen\]|Args\[RightParen\^LeftBracket\]):(bc|bc_sp|bc_ml|bc_star|bc_bc|sp|off_bc|off_tight|off_mid|bc_ws_line|bc_blank|bc_tab|bc_uni).*\|at=.*(block2_semi|block2_ml|import\w*|table\w*|grid\w*)", "#a({b; c})/*c1*/[foo]", "a comment (or blank) between the parts of a call whose argument holds a node that always breaks: " + E, "not-idempotent")
 kf("K8i-C03", "comment before ')' of a parenthesised import list", "C03", r"^C03\|not-idempotent\|(.*&)?dev=code:\w+>ModuleImport\[Ident\^RightParen\]:(bc|bc_sp|bc_ml|bc_star|bc_bc|off_bc|off_tight|off_mid|bc_ws_line|bc_blank|bc_tab|bc_uni)", "#{import \"m.typ\": (b, a/*c1*/)}", "a block comment before the closing parenthesis of an import list inside a code block: the first pass drops the parentheses and keeps the block on one line, the second pass breaks the block", "not-idempotent")
 kf("K8j-C03", "directive before an operand that gets optional parentheses", "C03", r"^C03\|not-idempotent\|(.*&)?dev=code:\w+>(ForLoop\[In\^\w+\]|Closure\[(Arrow|Eq)\^\w+\]):(off_bc|off_lc|off_tight|off_reason|off_mid)", "#for p in/* @typstyle off */a { b }", "an '@typstyle off' comment in front of a for-loop iterable or a closure body: at a narrow width the verbatim operand is wrapped in optional parentheses/braces by the first pass and the rest of the statement is laid out differently by the second", "not-idempotent")
-kf("K8n-C03", "directive directly before a comma", "C03", r"^C03\|not-idempotent\|(.*&)?dev=code:\w+>\w+\[\w+\^Comma\]:(off_bc|off_tight|off_mid)[|&]", "#g((..a/* @typstyle off */, k: b + c))", "an '@typstyle off' block comment between a list item and its comma is printed behind the comma (as every comment is); there it precedes the next item, which the second pass therefore treats as protected", "not-idempotent")
+kf("K8n-C03", "directive directly before a comma", "C03", r"^C03\|not-idempotent\|(.*&)?dev=code:\w+>\w+\[\w+\^Comma\]:(off_bc|off_tight|off_mid)[|&]", "#g((..a/* @typstyle off */, k:/* @typstyle off */b * c))", "an '@typstyle off' block comment between a list item and its comma is printed behind the comma (as every comment is); there it precedes the next item, which the second pass therefore treats as protected - a directive inside that item then loses its effect and its node is laid out anew", "not-idempotent")
 kf("K8g-C03", "table.<newline>header", "C03", r"^C03\|not-idempotent\|(.*&)?dev=\w+:\w+>FieldAccess\[Dot\^Ident\].*\|at=.*(table_hdr\w*|table_ftr\w*|grid_ftr\w*)", "#(table(columns: 2, table.\nheader(a, b), c, d))", "'table.header' written with a line break after the dot is not recognised as a header row by the first pass (the callee text is compared verbatim), but is by the second", "not-idempotent")
 
 # --------------------------------------------------------------------------- K9: comment inside 'not in'
